@@ -116,6 +116,32 @@ def c19(tier, seed):
                         V.append(v("C19", "result-depends-on-thread-count", {"argv": args, "threads": n, "reference_threads": ref[key][1], "exit": rc, "reference_exit": ref[key][0][0], "tree": files}))
                     if rc != 2:
                         V.append(v("C19", "exit-status-not-2:thread-sweep", {"argv": args, "exit": rc, "tree": files}))
+    # many files, among them pairs with the same stem in one directory and the same name in
+    # different directories, all passed explicitly: workers run concurrently on related paths
+    many = {}
+    for i in range(120):
+        many["m%d.lua" % i] = "local   lua_%d   =   {  %d  }\n" % (i, i)
+        many["m%d.txt" % i] = "local   txt_%d   =   {  %d  }\n" % (i, i)
+        many["d%d/init.lua" % (i % 10)] = "local   init_%d   =   1\n" % (i % 10)
+    names = sorted(many)
+    refm = None
+    for n in ([1, 3, 4, 8, 16] if tier == "quick" else [1, 2, 3, 4, 5, 8, 12, 16]):
+        for rep in range(2):
+            with Tree(many) as t:
+                args = ["--num-threads", str(n)] + names
+                rc, out, err = run(args, t.root, timeout=120)
+                snap = {k: v_[0] for k, v_ in t.snapshot().items()}
+                traces += 1
+                obs = (rc, tuple(sorted(snap.items())))
+                if refm is None:
+                    refm = (obs, n)
+                    # the reference itself must be the fully formatted tree
+                    bad = [k for k, v_ in t.snapshot().items() if b"   " in v_[3]]
+                    if rc != 0 or bad or len(snap) != len(many):
+                        V.append(v("C19", "many-files:reference-run-wrong", {"threads": n, "exit": rc, "unformatted": bad[:5], "files": len(snap)}))
+                elif obs != refm[0]:
+                    extra = sorted(set(snap) - set(many))[:5]
+                    V.append(v("C19", "many-files:result-depends-on-thread-count", {"argv": args[:2] + ["<%d files: mN.lua, mN.txt, dK/init.lua>" % len(names)], "threads": n, "exit": rc, "reference_exit": refm[0][0], "unexpected_files": extra, "stderr": err.decode("utf-8", "replace")[:300]}))
     S.append({"c19": {"forced_schedules": len(scheds) * 4, "thread_counts": threads, "traces_validated_against_impl": traces, "oracle_evaluations": traces}})
     return Q, V, S
 
@@ -389,6 +415,7 @@ def c18(tier, seed):
         "multi-line-delete": "local x = {\n\n\n\n1\n\n\n}\nlocal   y = 2\n",
         "blank-lines": "\n\n\nlocal x = 1\n\n\n\nlocal y = 2\n\n\n",
         "already-formatted": "local x = 1\n",
+        "huge-one-change": "".join("x = %d\n" % i if i != 60000 else "x   =   %d\n" % i for i in range(120000)),
         "empty": "",
     }
     cases = [(os.path.relpath(p, corpus), open(p, encoding="utf-8").read()) for p in pool] + list(specials.items())
@@ -743,4 +770,366 @@ def c17(tier, seed):
                                     if rc != 0:
                                         V.append(v("C17", "exit-status", detail))
     S.append({"c17": {"inputs": len(inputs), "runs": runs, "big_input_bytes": len(big), "oracle_evaluations": runs}})
+    return Q, V, S
+
+
+# ----------------------------------------------------------------------------- C20
+
+C20_PROBE = ("local s = 'single' .. \"double\"\nf \"x\"\ng{ 1 }\nfunction foo() return 1 end\nfoo(1)\n"
+             "local t = { aaaaaaaaaaaaaaaaaaaaaaaaaaaaaaaaaa = 1, bbbbbbbbbbbbbbbbbbbbbbbbbbbbbbbbbbbbbb = 2 }\n"
+             "if x then return end\nlocal b = require(\"b\")\nlocal a = require(\"a\")\n")
+
+# option, toml key, flag, editorconfig key, [(value as toml literal, flag value, editorconfig value or None, harness cfg fragment)]
+def _c20_options():
+    opts = []
+    opts.append(("syntax", "--syntax", None, [('"%s"' % v, v, None, "syntax=%s" % v) for v in ("All", "Lua51", "Lua52", "Lua53", "Lua54", "Luau", "LuaJIT")]))
+    opts.append(("column_width", "--column-width", "max_line_length", [("40", "40", "40", "width=40"), ("80", "80", "80", "width=80")]))
+    opts.append(("line_endings", "--line-endings", "end_of_line", [('"Unix"', "Unix", "lf", "eol=Unix"), ('"Windows"', "Windows", "crlf", "eol=Windows")]))
+    opts.append(("indent_type", "--indent-type", "indent_style", [('"Tabs"', "Tabs", "tab", "indent=Tabs/4"), ('"Spaces"', "Spaces", "space", "indent=Spaces/4")]))
+    opts.append(("indent_width", "--indent-width", "indent_size", [("2", "2", "2", "indent=Tabs/2"), ("8", "8", "8", "indent=Tabs/8")]))
+    opts.append(("quote_style", "--quote-style", "quote_type", [('"AutoPreferDouble"', "AutoPreferDouble", "double", "quote=AutoPreferDouble"), ('"AutoPreferSingle"', "AutoPreferSingle", "single", "quote=AutoPreferSingle"), ('"ForceDouble"', "ForceDouble", None, "quote=ForceDouble"), ('"ForceSingle"', "ForceSingle", None, "quote=ForceSingle")]))
+    opts.append(("call_parentheses", "--call-parentheses", "call_parentheses", [('"%s"' % v, v, (v.lower() if v != "Input" else None), "call=%s" % v) for v in ("Always", "NoSingleString", "NoSingleTable", "None", "Input")]))
+    opts.append(("collapse_simple_statement", "--collapse-simple-statement", "collapse_simple_statement", [('"%s"' % v, v, v.lower(), "collapse=%s" % v) for v in ("Never", "FunctionOnly", "ConditionalOnly", "Always")]))
+    opts.append(("space_after_function_names", "--space-after-function-names", "space_after_function_names", [('"%s"' % v, v, v.lower(), "space=%s" % v) for v in ("Never", "Definitions", "Calls", "Always")]))
+    return opts
+
+
+def c20(tier, seed):
+    Q, V, S = [], [], []
+    runs = 0
+    def fmt_with(files, args, env=None):
+        nonlocal runs
+        fs = dict(files)
+        fs["p.lua"] = C20_PROBE
+        with Tree(fs) as t:
+            rc, out, err = run(args + ["p.lua"], t.root, env=env)
+            runs += 1
+            return rc, open(os.path.join(t.root, "p.lua"), "rb").read().decode("utf-8", "replace"), err.decode("utf-8", "replace")
+    for key, flag, eckey, values in _c20_options():
+        for toml_v, flag_v, ec_v, frag in values:
+            lib = _lib_format(C20_PROBE, "syntax=All " + frag if not frag.startswith("syntax") else frag)
+            outs = {}
+            rc, outs["toml"], err = fmt_with({"stylua.toml": "%s = %s\n" % (key, toml_v)}, [])
+            if rc != 0:
+                V.append(v("C20", "toml-value-rejected:%s=%s" % (key, toml_v), {"stderr": err[:300]}))
+            for spelling in {flag_v, flag_v.lower(), flag_v.upper()}:
+                rc, o, err = fmt_with({}, [flag, spelling])
+                outs["flag:" + spelling] = o
+                if rc != 0:
+                    V.append(v("C20", "flag-value-rejected:%s=%s" % (flag, spelling), {"stderr": err[:300]}))
+            if eckey and ec_v:
+                rc, outs["editorconfig"], err = fmt_with({".editorconfig": "root = true\n[*.lua]\n%s = %s\n" % (eckey, ec_v)}, [])
+                rc, outs["editorconfig:upper"], err = fmt_with({".editorconfig": "root = true\n[*.lua]\n%s = %s\n" % (eckey, ec_v.upper())}, [])
+            for carrier, o in outs.items():
+                if o != lib:
+                    V.append(v("C20", "carrier-differs-from-library:%s:%s" % (key, carrier.split(":")[0]), {"option": key, "value": flag_v, "carrier": carrier, "carrier_output": o[:400], "library_output": lib[:400]}))
+    # a flag overrides a configuration file wherever that file was found
+    base = 'indent_type = "Spaces"\n'
+    for flagargs, frag in ((["--column-width", "40"], "width=40"), (["--quote-style", "ForceSingle"], "quote=ForceSingle"), (["--call-parentheses", "None"], "call=None"), (["--indent-width", "2"], "indent=Spaces/2")):
+        cfgfrag = "indent=Spaces/4 " + frag if not frag.startswith("indent") else frag
+        lib = _lib_format(C20_PROBE, "syntax=All " + cfgfrag)
+        for where in ("cwd", "parent", "xdg", "xdg-stylua", "home-config", "config-path"):
+            files = {"proj/p.lua": C20_PROBE}
+            args = list(flagargs)
+            envx = {}
+            if where == "cwd":
+                files["proj/stylua.toml"] = base
+            elif where == "parent":
+                files["stylua.toml"] = base; args.append("--search-parent-directories")
+            elif where == "xdg":
+                files["xdg/stylua.toml"] = base; args.append("--search-parent-directories")
+            elif where == "xdg-stylua":
+                files["xdg/stylua/stylua.toml"] = base; args.append("--search-parent-directories")
+            elif where == "home-config":
+                files["home/.config/stylua/stylua.toml"] = base; args.append("--search-parent-directories")
+            else:
+                files["conf/c.toml"] = base
+            with Tree(files) as t:
+                if where.startswith("xdg"):
+                    envx["XDG_CONFIG_HOME"] = os.path.join(t.root, "xdg")
+                if where == "home-config":
+                    envx["HOME"] = os.path.join(t.root, "home")
+                if where == "config-path":
+                    args += ["--config-path", os.path.join(t.root, "conf/c.toml")]
+                rc, out, err = run(args + ["p.lua"], os.path.join(t.root, "proj"), env=envx)
+                runs += 1
+                o = open(os.path.join(t.root, "proj/p.lua"), "rb").read().decode("utf-8", "replace")
+                if o != lib:
+                    V.append(v("C20", "flag-does-not-override-config:%s:%s" % (where, flagargs[0]), {"argv": args, "config_location": where, "carrier_output": o[:300], "library_output": lib[:300]}))
+    # sort_requires
+    lib = _lib_format(C20_PROBE, "syntax=All sort=true")
+    for carrier, files, args in (("toml", {"stylua.toml": "[sort_requires]\nenabled = true\n"}, []), ("flag", {}, ["--sort-requires"]), ("editorconfig", {".editorconfig": "root = true\n[*.lua]\nsort_requires = true\n"}, [])):
+        rc, o, err = fmt_with(files, args)
+        if o != lib or rc != 0:
+            V.append(v("C20", "carrier-differs-from-library:sort_requires:" + carrier, {"carrier_output": o[:300], "library_output": lib[:300], "exit": rc}))
+    # malformed configuration files: exit 2, nothing modified
+    bad = {
+        "misspelled-key": "colum_width = 80\n",
+        "wrong-type-int": 'column_width = "80"\n',
+        "wrong-type-enum": "quote_style = 3\n",
+        "unknown-enum-value": 'quote_style = "Sometimes"\n',
+        "unknown-table": "[formatting]\nwidth = 3\n",
+        "unknown-key-in-table": "[sort_requires]\nenable = true\n",
+        "not-toml": "column_width = = 3\n",
+        "negative-width": "column_width = -1\n",
+        "case-variant-enum": 'quote_style = "forcesingle"\n',
+    }
+    for name, body in bad.items():
+        for cfgname in ("stylua.toml", ".stylua.toml"):
+            with Tree({cfgname: body, "p.lua": C20_PROBE, "sub/q.lua": C20_PROBE}) as t:
+                before = t.snapshot()
+                rc, out, err = run(["."], t.root)
+                runs += 1
+                after = t.snapshot()
+                changed = [k_ for k_ in before if after[k_][0] != before[k_][0]]
+                if rc != 2 or changed:
+                    V.append(v("C20", "malformed-config-accepted:" + name, {"config": body, "file": cfgname, "exit": rc, "modified": changed, "stderr": err.decode("utf-8", "replace")[:300]}))
+            # the same file given through --config-path
+            with Tree({"conf/" + cfgname: body, "p.lua": C20_PROBE}) as t:
+                before = t.snapshot()
+                rc, out, err = run(["--config-path", "conf/" + cfgname, "p.lua"], t.root)
+                runs += 1
+                after = t.snapshot()
+                if rc != 2 or after["p.lua"][0] != before["p.lua"][0]:
+                    V.append(v("C20", "malformed-config-accepted:config-path:" + name, {"config": body, "exit": rc}))
+    Q.append(q("optiontables", "ok"))
+    S.append({"c20": {"runs": runs, "options": len(_c20_options()) + 1, "malformed_kinds": len(bad), "oracle_evaluations": runs}})
+    return Q, V, S
+
+
+# ----------------------------------------------------------------------------- C16
+
+import fnmatch
+
+
+def _pat_match(pat, name, is_dir):
+    """gitignore subset: patterns without inner slashes; returns True if `pat` (sans `!`) matches the basename"""
+    dir_only = pat.endswith("/")
+    p = pat.rstrip("/")
+    if dir_only and not is_dir:
+        return False
+    if p.startswith("**/"):
+        p = p[3:]
+    return fnmatch.fnmatchcase(name, p)
+
+
+def _ignore_decision(patterns, name, is_dir):
+    """last matching pattern wins: 'ignore' | 'whitelist' | None"""
+    res = None
+    for pat in patterns:
+        neg = pat.startswith("!")
+        body = pat[1:] if neg else pat
+        if _pat_match(body, name, is_dir):
+            res = "whitelist" if neg else "ignore"
+    return res
+
+
+def _emulate_walk(root, cwd_rel_files, ignore_files, args, allow_hidden, globs):
+    """what the `ignore` walker yields for the restricted pattern language: list of path strings as yielded.
+    cwd_rel_files: set of file paths relative to cwd; ignore_files: {dir rel to cwd ('' = cwd): [patterns]}"""
+    dirs = set()
+    for f in cwd_rel_files:
+        d = os.path.dirname(f)
+        while d:
+            dirs.add(d)
+            d = os.path.dirname(d)
+    yielded = []
+    def entry_ok(rel, is_dir, root_rel):
+        name = os.path.basename(rel)
+        if globs:
+            # overrides: a plain glob whitelists, a `!glob` ignores; last match wins
+            res = None
+            for g in globs:
+                neg = g.startswith("!")
+                if _pat_match(g[1:] if neg else g, name, is_dir):
+                    res = "ignore" if neg else "whitelist"
+            if res == "whitelist":
+                return True
+            if res == "ignore":
+                return False
+            if not is_dir and any(not g.startswith("!") for g in globs):
+                return False
+        # ignore files: the directory's own chain from the entry's parent up to the file-system root
+        # (parents(true)) - deeper files first; the cwd file is added explicitly as well
+        d = os.path.dirname(rel)
+        chain = []
+        while True:
+            chain.append(d)
+            if not d:
+                break
+            d = os.path.dirname(d)
+        for d in chain:
+            pats = ignore_files.get(d)
+            if pats:
+                dec = _ignore_decision(pats, name, is_dir)
+                if dec == "ignore":
+                    return False
+                if dec == "whitelist":
+                    return True
+        if not allow_hidden and name.startswith("."):
+            return False
+        return True
+    def descend(dir_rel, prefix):
+        # dir_rel: directory relative to cwd ('' = cwd); prefix: path string as yielded for that directory
+        children_dirs = sorted(d for d in dirs if os.path.dirname(d) == dir_rel)
+        children_files = sorted(f for f in cwd_rel_files if os.path.dirname(f) == dir_rel)
+        for f in children_files:
+            if entry_ok(f, False, dir_rel):
+                yielded.append((os.path.join(prefix, os.path.basename(f)), f))
+        for d in children_dirs:
+            if entry_ok(d, True, dir_rel):
+                descend(d, os.path.join(prefix, os.path.basename(d)))
+    for a in args:
+        rel = os.path.normpath(a)
+        if rel == ".":
+            rel = ""
+        if rel in cwd_rel_files:
+            yielded.append((a, rel))
+        elif rel == "" or rel in dirs:
+            descend(rel, a)
+        else:
+            pass  # missing path: walker error
+    return yielded
+
+
+def _stylua_ignored_single(rel, ignore_files):
+    """path_is_stylua_ignored: the .styluaignore of the file's own directory, else the cwd's; the path and its parents"""
+    d = os.path.dirname(rel)
+    if d in ignore_files and ignore_files[d] is not None and d != "":
+        base, pats = d, ignore_files[d]
+    elif "" in ignore_files:
+        base, pats = "", ignore_files[""]
+    else:
+        return False
+    relb = os.path.relpath(rel, base) if base else rel
+    parts = relb.split("/")
+    # any parent directory (below the ignore file) or the file itself
+    for i in range(len(parts)):
+        is_dir = i < len(parts) - 1
+        if _ignore_decision(pats, parts[i], is_dir) == "ignore":
+            return True
+    return _ignore_decision(pats, parts[-1], False) == "ignore"
+
+
+def c16(tier, seed):
+    Q, V, S = [], [], []
+    rng = random.Random(seed * 49979687 + 16)
+    n = 300 if tier == "thorough" else 90
+    all_files = ["a.lua", "b.luau", "c.txt", ".hidden.lua", "gen.gen.lua", "keep.gen.lua", "src/main.lua", "src/util.lua",
+                 "src/gen/out.lua", "src/gen/keep.lua", "src/.hid/x.lua", "src/notes.txt", "proj/src/main.lua", "proj/src/gen/out.lua", "proj/src/util.lua"]
+    pat_pool = ["gen/", "util.lua", "*.gen.lua", "!keep.gen.lua", "notes.txt", "main.lua", "*.luau"]
+    glob_sets = [[], [], [], ["*.lua"], ["**/*.txt"], ["*.luau", "*.txt"], ["*.lua", "!util.lua"]]
+    arg_pool = [".", "src", "src/main.lua", "./src/main.lua", "src/gen/out.lua", "c.txt", ".hidden.lua", "proj/src", "a.lua", "src/util.lua", "proj", "gen.gen.lua"]
+    runs = 0
+    mk = lambda names: {f: "local   marker_%d   =   1\n" % i for i, f in enumerate(all_files) if f in names}
+    fixed = [
+        # (files, ignore files, args, respect, allow_hidden, globs) - past failures and the recorded findings first
+        (mk({"a.lua", "src/main.lua"}), {}, [".", "a.lua"], False, False, []),
+        (mk({"a.lua", "src/main.lua"}), {}, ["src/main.lua", "./src/main.lua", "src"], False, False, []),
+        (mk({"a.lua", "c.txt"}), {}, [".", "c.txt"], False, False, []),
+        (mk({"a.lua", "c.txt"}), {}, ["c.txt", "."], True, False, []),
+        (mk({"src/util.lua", "src/main.lua"}), {"": ["util.lua"]}, ["."], False, False, ["*.lua"]),
+        (mk({".hidden.lua", "a.lua"}), {}, ["."], False, False, ["*.lua"]),
+        (mk({"src/util.lua", "src/main.lua"}), {"": ["util.lua"]}, [".", "src/util.lua"], False, False, []),
+        (mk({"src/util.lua", "src/main.lua"}), {"": ["util.lua"]}, [".", "src/util.lua"], True, False, []),
+        (mk({"proj/src/main.lua", "proj/src/util.lua", "proj/src/gen/out.lua"}), {"proj": ["gen/", "util.lua"]}, ["proj/src"], False, False, []),
+        (mk({"gen.gen.lua", "keep.gen.lua", "a.lua"}), {"": ["*.gen.lua", "!keep.gen.lua"]}, ["."], False, False, []),
+        (mk({"src/.hid/x.lua", ".hidden.lua", "a.lua"}), {}, ["."], False, True, []),
+    ]
+    for case in range(n + len(fixed)):
+      if case < len(fixed):
+        files, ignore_files, args, respect, allow_hidden, globs = fixed[case]
+      else:
+        files = {f: "local   marker_%d   =   1\n" % i for i, f in enumerate(all_files) if rng.random() < 0.85}
+        ignore_files = {}
+        for d in ("", "src", "proj"):
+            if rng.random() < 0.5:
+                pats = [p for p in pat_pool if rng.random() < 0.35]
+                if pats:
+                    ignore_files[d] = pats
+        args = []
+        for _ in range(rng.randrange(1, 4)):
+            a = rng.choice(arg_pool)
+            args.append(a)
+        # arguments must exist (missing paths are C13/C19's business)
+        def exists(a):
+            r = os.path.normpath(a)
+            return r == "." or r in files or any(f.startswith(r + "/") for f in files)
+        args = [a for a in args if exists(a)] or ["."]
+        respect = rng.random() < 0.4
+        allow_hidden = rng.random() < 0.3
+        globs = rng.choice(glob_sets)
+      if True:
+        tree = dict(files)
+        for d, pats in ignore_files.items():
+            tree[os.path.join(d, ".styluaignore")] = "\n".join(pats) + "\n"
+        argv = (["--respect-ignores"] if respect else []) + (["--allow-hidden"] if allow_hidden else [])
+        for g in globs:
+            argv += ["--glob", g]
+        argv += ["--"] + args
+        with Tree(tree) as t:
+            # which files are processed, and how often: check mode, JSON, one entry per processing
+            rc, out, err = run(["--check", "--output-format", "json"] + argv, t.root)
+            runs += 1
+            counts = {}
+            for l in out.decode("utf-8", "replace").split("\n"):
+                l = l.strip()
+                if l.startswith("{") and '"file"' in l:
+                    p = os.path.normpath(json.loads(l)["file"])
+                    counts[p] = counts.get(p, 0) + 1
+            before = t.snapshot()
+            rc2, out2, err2 = run(argv, t.root)
+            runs += 1
+            after = t.snapshot()
+            changed = sorted(k for k in before if k in files and after[k][0] != before[k][0])
+            detail = {"argv": argv, "tree": {k: v_ for k, v_ in tree.items() if k.endswith(".styluaignore")}, "files": sorted(files), "processed": counts, "stderr": err.decode("utf-8", "replace")[:300]}
+            if sorted(counts) != changed:
+                V.append(v("C16", "check-and-write-mode-select-differently", dict(detail, changed=changed)))
+            # ---- ring 2: the walker emulation feeds the model of StyLua's glue
+            ylist = _emulate_walk(t.root, set(files), ignore_files, args, allow_hidden, globs)
+            spell_ids, file_ids = {}, {}
+            ents = []
+            for spelled, rel in ylist:
+                sid = spell_ids.setdefault(spelled, len(spell_ids))
+                fid = file_ids.setdefault(rel, len(file_ids))
+                explicit = spelled in args
+                lua = rel.endswith(".lua") or rel.endswith(".luau")
+                ign = _stylua_ignored_single(rel, ignore_files)
+                ents.append("%d:%d:1:%d:%d:%d" % (fid, sid, explicit, lua, ign))
+            inv = {v_: k for k, v_ in file_ids.items()}
+            exp_multiset = sorted((file_ids[p], c) for p, c in counts.items() if p in file_ids)
+            impl = ",".join(str(f) for f, c in exp_multiset for _ in range(c)) or "-"
+            unknown = [p for p in counts if p not in file_ids]
+            req = "select %d %d %s" % (bool(globs), respect, ",".join(ents) or "-")
+            Q.append(q(req, "sorted:" + impl + ("|unyielded:" + ",".join(unknown) if unknown else "")))
+            # ---- ring 3: the property, computed independently of the model
+            for p, c in counts.items():
+                if c > 1:
+                    V.append(v("C16", "processed-more-than-once:path-spelled-two-ways", dict(detail, file=p, times=c)))
+            for p in counts:
+                explicit_arg = any(os.path.normpath(a) == p for a in args)
+                if explicit_arg and not respect:
+                    continue
+                name = os.path.basename(p)
+                parts = p.split("/")
+                hidden = any(x.startswith(".") for x in parts)
+                if hidden and not allow_hidden and not explicit_arg:
+                    V.append(v("C16", "hidden-file-processed" + (":glob-given" if globs else ""), dict(detail, file=p)))
+                # excluded by a .styluaignore on the way (stacked semantics)
+                excluded = False
+                for i in range(len(parts)):
+                    d = "/".join(parts[:i])
+                    for base in {"/".join(parts[:j]) for j in range(i + 1)}:
+                        pats = ignore_files.get(base)
+                        if pats and _ignore_decision(pats, parts[i], i < len(parts) - 1) == "ignore":
+                            excluded = True
+                if excluded and _ignore_decision([x for d_, ps in ignore_files.items() for x in ps], name, False) != "whitelist":
+                    V.append(v("C16", "styluaignored-file-processed" + (":glob-given" if globs else "") + (":explicit-respect" if explicit_arg else ""), dict(detail, file=p)))
+                if not globs and not (name.endswith(".lua") or name.endswith(".luau")):
+                    V.append(v("C16", "non-lua-file-processed", dict(detail, file=p)))
+            for a in args:
+                r = os.path.normpath(a)
+                if r in files and not respect and r not in counts:
+                    V.append(v("C16", "explicit-file-not-processed", dict(detail, file=r)))
+    S.append({"c16": {"cases": n, "runs": runs, "oracle_evaluations": runs}})
     return Q, V, S
